@@ -87,6 +87,8 @@ JudgeDgram(e) ==
                           \o Cl(n >= 1 \/ e.cut, "C17:holds-the-port-but-does-not-hear")
                           \o Cl(rightOwner, "C07:delivered-to-the-listening-bridge")
                           \o (IF n >= 1 THEN FieldClauses(c.fam, e.b, e.delivered[1]) ELSE <<>>)
+                          \* "... with the decoded device": whatever was delivered before, and whatever its receiver did with it
+                          \o (IF n >= 1 /\ FieldClauses(c.fam, e.b, e.delivered[1]) # <<>> THEN <<"C07:delivered-device-is-not-the-decoded-one">> ELSE <<>>)
                           \o (IF e.burst THEN <<>> ELSE Cl(OnlyCallbackExc(e), "C07:valid-broadcast-raised")
                                                       \o Cl(e.warns = 0, "C06:valid-broadcast-warned")),
                   tag |-> "dgram-valid-" \o c.fam \o (IF e.cbraise THEN "-callback-raises" ELSE "") \o (IF e.burst THEN "-in-burst" ELSE "")
